@@ -75,6 +75,13 @@ def request_mix() -> typing.List[typing.Tuple[str, bytes, typing.Optional[bytes]
         mix.append((v, b"/nope", None))
         mix.append((v, b"/packed.txt.gz", None))
     mix.append(("http", b"/PYGOPHERD-HTTPPROTO-ICONS/text.gif", None))
+    # selectors carrying a leading item-type component (rewritten by url.URLTypeRewriter before the look-up)
+    for v in ("gopher", "gopherp+", "http", "gopher", "spartan"):
+        mix.append((v, b"/0/small.txt", None))
+        mix.append((v, b"/1/hot", None))
+        mix.append((v, b"/9/large.bin", None))
+    mix.append(("gopher", b"/0/arch.zip/m1.txt", None))
+    mix.append(("gopher", b"/1/arch.zip/many", None))
     return mix
 
 
@@ -129,6 +136,57 @@ BAD_KINDS = ["garbage-after-tls-byte", "tls-client-rejecting-certificate", "conn
              "tls-hello-then-close"]
 
 
+def silent_client_isolation(chk: Check, sp: spdriver.ServerProcess, servertype: str, rd: int) -> bool:
+    """Clients that connect and then say nothing (or stop in the middle of a TLS handshake) stay connected
+    *until the probes below have been answered*: the verdict is causal, not a deadline -- a probe that is only
+    answered after the silent clients were disconnected was waiting for them."""
+    silent = []
+    try:
+        for first in (b"", b"\x16", b"\x16\x03\x01\x02\x00\x01\x00", b"/hot"):
+            s = socket.create_connection(("127.0.0.1", sp.port), timeout=10)
+            if first:
+                s.sendall(first)
+            silent.append(s)
+        time.sleep(0.2)
+        results = {}
+
+        def probe(name, view):
+            results[name] = fetch_t(sp, view, b"/small.txt", 25)
+
+        ths = [threading.Thread(target=probe, args=(n, v), daemon=True) for n, v in (("plain", "gopher"), ("tls", "gophers"), ("http", "http"))]
+        for t in ths:
+            t.start()
+        for t in ths:
+            t.join(40)
+        chk.count("probes_behind_silent_clients", len(ths))
+        blocked = [n for n in ("plain", "tls", "http") if results.get(n, (None, "no result"))[1] is not None]
+    finally:
+        for s in silent:
+            try:
+                s.close()
+            except OSError:
+                pass
+    if not blocked:
+        return True
+    # were they waiting for the silent clients?  Those are gone now: ask again.
+    after = {n: fetch_t(sp, v, b"/small.txt", 25) for n, v in (("plain", "gopher"), ("tls", "gophers"), ("http", "http")) if n in blocked}
+    if all(err is None for _, err in after.values()):
+        chk.witness("C14/%s:silent-client-blocks-other-clients" % servertype,
+                    {"round": rd, "unanswered_while_silent_clients_were_connected": blocked,
+                     "answered_once_they_were_gone": sorted(after), "server_stderr": sp.stderr_text()[-400:]})
+        return False
+    chk.note_inconclusive("round %d: probes unanswered even without silent clients: %r" % (rd, {n: e for n, (_, e) in after.items()}))
+    return True
+
+
+def fetch_t(sp: spdriver.ServerProcess, view: str, sel: bytes, timeout: float):
+    req, tls = reqs.render(view, sel, None)
+    try:
+        return sp.request(req, tls=tls, timeout=timeout), None
+    except Exception as e:  # noqa
+        return None, "%s: %s" % (type(e).__name__, e)
+
+
 def children_states(pid: int) -> typing.List[typing.Tuple[int, str]]:
     out = []
     for n in os.listdir("/proc"):
@@ -160,7 +218,7 @@ def run_round(chk: Check, sc: Scratch, rd: int, servertype: str, nreq: int, yiel
     env = {"VF_YIELD": yield_spec} if yield_spec else {}
     alog = os.path.join(sc.path, "audit-%d.log" % rd)
     env["VF_AUDIT_LOG"] = alog
-    overrides = {("handlers.HandlerMultiplexer", "handlers"): driver.HANDLERS_FULL,
+    overrides = {("handlers.HandlerMultiplexer", "handlers"): driver.HANDLERS_FULL_REWRITE,
                  ("handlers.ZIP.ZIPHandler", "enabled"): "true",
                  ("handlers.file.CompressedFileHandler", "decompressors"): driver.decompressors_option(),
                  ("handlers.dir.DirHandler", "cachetime"): "1000"}
@@ -250,6 +308,8 @@ def run_round(chk: Check, sc: Scratch, rd: int, servertype: str, nreq: int, yiel
             chk.witness("C14/%s:server-stopped-answering" % servertype, {"round": rd, "probe": probe, "error": perr,
                                                                         "stderr": sp.stderr_text()[-500:]})
             return
+        if not silent_client_isolation(chk, sp, servertype, rd):
+            return
         zombies = []
         for _ in range(20):
             # reaping happens from the accept loop's 0.5 s service interval; no probing here,
@@ -338,7 +398,7 @@ def first_request_bursts(chk: Check, sc: Scratch, src_root: str, nbursts: int) -
     import io as _io
     root = os.path.join(sc.path, "root-first")
     shutil.copytree(src_root, root, symlinks=True)
-    site = driver.Site(root, handlers=driver.HANDLERS_FULL, overrides={("handlers.dir.DirHandler", "cachetime"): "1000"})
+    site = driver.Site(root, handlers=driver.HANDLERS_FULL_REWRITE, overrides={("handlers.dir.DirHandler", "cachetime"): "1000"})
     rng = chk.subrng("first")
     combos = [(v, sel) for v in ("gopher", "gopherp$", "http", "gemini", "wap", "gophers") for sel in (b"/hot", b"/", b"/arch.zip/sub")]
     ref = {}
@@ -403,7 +463,7 @@ def first_request_bursts(chk: Check, sc: Scratch, src_root: str, nbursts: int) -
 def take_reference(chk: Check, sc: Scratch, src_root: str) -> typing.Optional[typing.Dict[tuple, bytes]]:
     root = os.path.join(sc.path, "root-ref")
     shutil.copytree(src_root, root, symlinks=True)
-    overrides = {("handlers.HandlerMultiplexer", "handlers"): driver.HANDLERS_FULL,
+    overrides = {("handlers.HandlerMultiplexer", "handlers"): driver.HANDLERS_FULL_REWRITE,
                  ("handlers.ZIP.ZIPHandler", "enabled"): "true",
                  ("handlers.file.CompressedFileHandler", "decompressors"): driver.decompressors_option(),
                  ("handlers.dir.DirHandler", "cachetime"): "1000"}
